@@ -62,8 +62,13 @@ func c16Menu() []*config.PikeConfig {
 		{Caches: caches("c1", "c2"), Upstreams: up("u1", "u2"), Locations: []config.LocationConfig{l1, l2}, Servers: []config.ServerConfig{{Addr: c16S1, Locations: []string{"l1"}, Cache: "c2"}, {Addr: c16S2, Locations: []string{"l2", "l1"}, Cache: "c1", CompressContentTypeFilter: "nothing"}}},
 		// 5: bestCompression profile overridden
 		{Compresses: []config.CompressConfig{{Name: "bestCompression", Levels: map[string]uint{"gzip": 1, "br": 1}}}, Caches: caches("c1"), Upstreams: up("u1"), Locations: []config.LocationConfig{l1}, Servers: []config.ServerConfig{{Addr: c16S1, Locations: []string{"l1"}, Cache: "c1"}}},
+		// 7 (appended below): cache c1 with a store that validates but cannot be opened
 		// 6: only the second server, other cache name
 		{Caches: caches("c2"), Upstreams: up("u2"), Locations: []config.LocationConfig{l2, {Name: "l1", Upstream: "u2"}}, Servers: []config.ServerConfig{{Addr: c16S2, Locations: []string{"l1"}, Cache: "c2", CompressMinLength: "2kb"}}},
+		// 7: like 0, but the cache names a store that cannot be opened (it runs memory-only) and the filter is set
+		{Caches: []config.CacheConfig{{Name: "c1", Size: 100, HitForPass: "5m", Store: c11BadStore}}, Upstreams: up("u1"), Locations: []config.LocationConfig{l1}, Servers: []config.ServerConfig{{Addr: c16S1, Locations: []string{"l1"}, Cache: "c1", CompressContentTypeFilter: "text"}}},
+		// 8: the same cache (store still unusable), unrelated change: second upstream and location
+		{Caches: []config.CacheConfig{{Name: "c1", Size: 100, HitForPass: "5m", Store: c11BadStore}}, Upstreams: up("u1", "u2"), Locations: []config.LocationConfig{l1, l2}, Servers: []config.ServerConfig{{Addr: c16S1, Locations: []string{"l1", "l2"}, Cache: "c1", CompressContentTypeFilter: "text"}}},
 	}
 }
 
@@ -316,7 +321,7 @@ func c16Conc(c *Ctx, name string, b vsched.Bounds) Sched {
 
 func init() {
 	Register("C16", func(c *Ctx) {
-		c.Out.Rule = "BFS over all sequences (depth 3 quick / 4 thorough) of 7 valid configurations (add/remove/modify servers, caches, locations, upstreams, compress profiles incl. a bestCompression override, optional fields set and unset) applied with main.update()'s call sequence to a running instance; after every step the live instance's probe observations (routing, rewrite, added headers/query, encoding, compressed length, cache binding) must equal those of an instance freshly started with that configuration, surviving caches keep their dispatcher object and seeded entries; plus every bounded schedule of an update racing two requests on an unchanged server (real loopback origin); restart-only settings excluded"
+		c.Out.Rule = "BFS over all sequences (depth 3 quick / 4 thorough) of 9 valid configurations (one cache with a store that cannot be opened) (add/remove/modify servers, caches, locations, upstreams, compress profiles incl. a bestCompression override, optional fields set and unset) applied with main.update()'s call sequence to a running instance; after every step the live instance's probe observations (routing, rewrite, added headers/query, encoding, compressed length, cache binding) must equal those of an instance freshly started with that configuration, surviving caches keep their dispatcher object and seeded entries; plus every bounded schedule of an update racing two requests on an unchanged server (real loopback origin); restart-only settings excluded"
 		c.Out.Assume = []string{"the harness applies configurations with the same calls in the same order as main.update() (checked against main.go's AST by the driver)"}
 		menu := c16Menu()
 		fresh := make([]string, len(menu))
@@ -500,6 +505,69 @@ func init() {
 					if s2 := server.Get(sb.Addr); s2 != nil {
 						if conn, err := net.DialTimeout("tcp", s2.GetListenAddr(), time.Second); err != nil {
 							c.Violation("removed-server-stops-listening", "surviving-server-not-listening", fmt.Sprintf("%s: %v", sb.Addr, err), nil, nil, nil)
+						} else {
+							conn.Close()
+						}
+					}
+				}
+				e.Close()
+			}
+			env.FreshAll()
+			procEnv = nil
+			st.States, st.Transitions, st.Nontrivial = st.Execs, st.Execs, st.Execs
+			st.NOutcomes = int(st.Execs)
+		}
+		// one update that removes several servers at once: every one of them stops listening, the kept one serves on
+		if c.Want("remove-several-servers") && c.Shard == 1%c.NShards {
+			st := c.Stat("remove-several-servers", "enumeration")
+			st.Bounds = "4 servers (127.0.0.1..4), one update keeps exactly one of them (4 cases) or two (first+last): every removed listener must refuse connections within 15 s, every kept one still accepts"
+			addrs := []string{"127.0.0.1:0", "127.0.0.2:0", "127.0.0.3:0", "127.0.0.4:0"}
+			mk := func(keep []int) *config.PikeConfig {
+				cfg := &config.PikeConfig{Caches: []config.CacheConfig{{Name: "c1", Size: 100, HitForPass: "5m"}}, Upstreams: []config.UpstreamConfig{{Name: "u1"}}, Locations: []config.LocationConfig{{Name: "l1", Upstream: "u1"}}}
+				for _, i := range keep {
+					cfg.Servers = append(cfg.Servers, config.ServerConfig{Addr: addrs[i], Locations: []string{"l1"}, Cache: "c1"})
+				}
+				return cfg
+			}
+			for _, keep := range [][]int{{0}, {1}, {2}, {3}, {0, 3}} {
+				e := env.New(mk([]int{0, 1, 2, 3}))
+				listen := map[int]string{}
+				for i, a := range addrs {
+					if sv := server.Get(a); sv != nil {
+						listen[i] = sv.GetListenAddr()
+					}
+				}
+				_ = env.Apply(mk(keep))
+				st.Execs++
+				kept := map[int]bool{}
+				for _, k := range keep {
+					kept[k] = true
+				}
+				open := map[int]bool{}
+				for t0 := time.Now(); time.Since(t0) < 15*time.Second; time.Sleep(250 * time.Millisecond) {
+					n := 0
+					for i := range addrs {
+						if kept[i] {
+							continue
+						}
+						conn, err := net.DialTimeout("tcp", listen[i], 500*time.Millisecond)
+						open[i] = err == nil
+						if err == nil {
+							conn.Close()
+							n++
+						}
+					}
+					if n == 0 {
+						break
+					}
+				}
+				for i := range addrs {
+					if !kept[i] && open[i] {
+						c.Violation("remove-several-servers", "removed-server-still-listening", fmt.Sprintf("an update from 4 servers to %v: removed server %s still accepts connections on %s after 15 s", keep, addrs[i], listen[i]), nil, map[string]interface{}{"keep": keep, "still_open": i}, nil)
+					}
+					if kept[i] {
+						if conn, err := net.DialTimeout("tcp", listen[i], time.Second); err != nil {
+							c.Violation("remove-several-servers", "surviving-server-not-listening", fmt.Sprintf("%s: %v", addrs[i], err), nil, map[string]interface{}{"keep": keep}, nil)
 						} else {
 							conn.Close()
 						}
